@@ -38,7 +38,9 @@ ASSUMPTIONS = [
 
 
 def budget(tier):
-    return {"workers": 16, "examples": 200 if tier == "quick" else 5000}
+    q = tier == "quick"
+    return [{"workers": 16, "examples": 170 if q else 5000},
+            {"part": "reorder", "workers": 16, "examples": 90 if q else 3000}]
 
 
 def gen(d, tier):
@@ -92,23 +94,27 @@ def in_domain(trace):
 
 
 class Mangler:
-    """Decisions (one script entry per raw event, cyclic):
-       0,1 pass   2 duplicate x2   3 duplicate x3   4 pass now + a second copy later
-       5 hold back (id-style; else pass)   6 hold back (id-style; else duplicate)   7 pass
-       Entry parity of the call counter decides singleton delivery."""
+    """Script-driven delivery.  One script entry per raw event (cyclic) decides (copies now, delay, late copy):
+         0,1,7 deliver once now      2 / 3 deliver 2x / 3x now      4 deliver now + one more copy some calls later
+         5 / 6 deliver late: the event waits DELAYS[...] intake calls of its side (id-style sides only; a later
+               event with a shorter delay overtakes it = reordering).  On path-style sides 5 -> once, 6 -> twice.
+       Odd-numbered intake calls hand over a single event only (singleton batches).
+       `flush` (set while quiet is being evaluated) is never needed for release: waiting events count as pending,
+       so the engine keeps being stepped until every one of them has been delivered."""
+    DELAYS = (1, 2, 3, 6, 15)
 
     def __init__(self, script, id_style):
         self.script = list(script) or [0]
         self.pos = 0
-        self.id_style = id_style        # per side
+        self.id_style = id_style        # per side: may events be delayed / reordered?
+        self.id_style_real = id_style
         self.out = [deque(), deque()]
-        self.held = [[], []]
-        self.later = [[], []]
+        self.waiting = [[], []]         # [due_call, seq, event, label]
         self.calls = [0, 0]
+        self.seq = 0
         self.flush = False
         self.stats = Counter()
-        self.id_style_real = id_style
-        self.fence_late = True       # hazard LATE_DUP_PATHSTYLE (KF-32): no stale second copy on path-style sides
+        self.fence_late = True          # LATE_DUP_PATHSTYLE: no stale second copy on path-style sides
         self.no_single = False
 
     def _next(self):
@@ -120,38 +126,38 @@ class Mangler:
         self.out[side].append(ev)
         self.stats["injected"] += 1
 
+    def _wait(self, side, ev, label):
+        d = self.DELAYS[self._next() % len(self.DELAYS)]
+        self.seq += 1
+        self.waiting[side].append([self.calls[side] + d, self.seq, ev, label])
+
     def __call__(self, case, prov, orig):
         side = prov._vf_side
         self.calls[side] += 1
         raw = list(orig(prov))                  # our own cursor: take everything the provider has
         out = self.out[side]
-        # release what was held on earlier calls (reversed: out-of-order), and delayed second copies
-        if self.held[side] and (self.flush or self.calls[side] % 3 == 0):
-            rel = list(reversed(self.held[side]))
-            self.held[side] = []
-            out.extend(rel)
-            self.stats["released_reordered"] += len(rel)
-        if self.later[side] and (self.flush or self.calls[side] % 2 == 0):
-            out.extend(self.later[side])
-            self.stats["late_copy"] += len(self.later[side])
-            self.later[side] = []
+        due = sorted([w for w in self.waiting[side] if w[0] <= self.calls[side]], key=lambda w: (w[0], -w[1]))
+        for w in due:
+            self.waiting[side].remove(w)
+            out.append(w[2])
+            self.stats[w[3]] += 1
         for ev in raw:
-            dec = 0 if self.flush else self._next()
+            dec = self._next()
             if dec in (2, 3):
                 out.extend([ev] * dec)
                 self.stats["duplicated"] += 1
             elif dec == 4 and (self.id_style_real[side] or not self.fence_late):
                 out.append(ev)
-                self.later[side].append(ev)
+                self._wait(side, ev, "late_copy")
             elif dec in (5, 6) and self.id_style[side]:
-                self.held[side].append(ev)
+                self._wait(side, ev, "delivered_late")
                 self.stats["held"] += 1
             elif dec == 6:
                 out.extend([ev, ev])
                 self.stats["duplicated"] += 1
             else:
                 out.append(ev)
-        single = (not self.flush) and self.calls[side] % 2 == 1 and not self.no_single
+        single = self.calls[side] % 2 == 1 and not self.no_single
         return self._drain(side, single)
 
     def _drain(self, side, single):
@@ -166,7 +172,7 @@ class Mangler:
                 return
 
     def pending(self, side):
-        return bool(self.out[side] or self.held[side] or self.later[side])
+        return bool(self.out[side] or self.waiting[side])
 
 
 class Run(HistoryRun):
@@ -196,14 +202,13 @@ class Run(HistoryRun):
             orig_quiet = case.quiet
 
             def quiet():
-                # everything held back is released before quiet is evaluated
-                self.m.flush = True
-                try:
-                    if any(self.m.pending(s) for s in (0, 1)):
-                        return False
-                    return orig_quiet()
-                finally:
-                    self.m.flush = False
+                # an event that is still waiting to be delivered is pending work
+                if any(self.m.pending(s) for s in (0, 1)):
+                    return False
+                r = orig_quiet()            # (its busy probe may pull new events into the waiting list)
+                if any(self.m.pending(s) for s in (0, 1)):
+                    return False
+                return r
             case.quiet = quiet
 
     def _watch_if_quiet(self, what):
@@ -310,3 +315,65 @@ def run(trace):
         labs.append("mangle:walk")
     nt = mang.busy_when_mangled and bool(sum(st.values()))
     return ok(nontrivial=nt, labels=labs)
+
+
+# ----------------------------------------------------------------------------- directed part: related objects, late events
+SCENARIOS = {
+    "A_create_in_renamed_folder": [("rename", "/p", "/q"), ("create", "/q/n", "n1")],
+    "C_new_folder_with_files": [("mkdir", "/m"), ("create", "/m/x", "x1"), ("create", "/m/y", "y1")],
+    "D_move_then_edit": [("rename", "/p/f", "/h"), ("write", "/h", "h1")],
+    "E_create_then_move": [("create", "/n", "n1"), ("rename", "/n", "/k/n")],
+    "F_move_then_delete": [("rename", "/g", "/k/g"), ("delete", "/k/g")],
+    "G_edit_then_move": [("write", "/g", "g1"), ("rename", "/g", "/k/g2")],
+    "H_nested_new_folders": [("mkdir", "/m"), ("mkdir", "/m/m2"), ("create", "/m/m2/x", "x1")],
+}
+RE_BASE = [("mkdir", "/p"), ("create", "/p/f", "f0"), ("create", "/g", "g0"), ("mkdir", "/k")]
+
+
+def gen_reorder(d, tier):
+    from ..model import World, ModelInvalid
+    flav = d.choice((("id", "id"), ("id", "path"), ("path", "id")))
+    origin = 0 if flav[0] == "id" else 1
+    if flav == ("id", "id"):
+        origin = d.int(0, 1)
+    cfg = {"L": flav[0], "R": flav[1], "salt": d.int(0, 7), "origin": origin, "mode": "mixed"}
+    world = World(path_style=(flav[0] == "path", flav[1] == "path"))
+    _strict(world)
+    acts = []
+    for op in RE_BASE:
+        acts.append(["u", origin] + list(op))
+        world.apply(origin, *op)
+    acts.append(["settle"])
+    world.settle()
+    names = list(SCENARIOS)
+    used = []
+    for _ in range(d.int(1, 2)):
+        sc = d.choice(names)
+        names.remove(sc)
+        for op in SCENARIOS[sc]:
+            try:
+                world.side[origin].check(*op)
+            except ModelInvalid:
+                break
+            h = world.hazard(origin, *op)
+            if h is not None:
+                world.excluded[h] += 1
+                break
+            acts.append(["u", origin] + list(op))
+            world.apply(origin, *op)
+            if d.chance(1, 3):
+                acts.append(["step", d.choice(("EL", "ER", "S"))])
+        used.append(sc)
+    acts.append(["settle"])
+    script = [d.choice((5, 6, 5, 0, 4, 2)) for _ in range(d.int(3, 12))]
+    return {"cfg": cfg, "acts": acts, "script": script, "scenario": used, "meta": {"excluded": dict(world.excluded)}}
+
+
+def run_reorder(trace):
+    out = run(trace)
+    if out["status"] == "ok":
+        out["labels"] = out.get("labels", []) + ["scenario:" + x for x in trace.get("scenario", [])]
+    return out
+
+
+PARTS = {"reorder": (gen_reorder, run_reorder)}
